@@ -534,6 +534,35 @@ where
         }
     };
 
+    // Open the new FD. If that fails, target_fd has not been modified, so the
+    // saved copy is no longer needed and must not be left open.
+    match open_target(env, redir, target_fd, xtrace).await {
+        Ok(exit_status) => {
+            let original = target_fd;
+            Ok((SavedFd { original, save }, exit_status))
+        }
+        Err(error) => {
+            if let Some(save) = save {
+                let _: Result<(), Errno> = env.system.close(save);
+            }
+            Err(error)
+        }
+    }
+}
+
+/// Opens the file descriptor specified by the redirection body at `target_fd`.
+///
+/// This is the second half of [`perform`]. On error, `target_fd` is left
+/// unmodified.
+async fn open_target<S>(
+    env: &mut Env<S>,
+    redir: &Redir,
+    target_fd: Fd,
+    xtrace: Option<&mut XTrace>,
+) -> Result<Option<ExitStatus>, Error>
+where
+    S: Runtime + 'static,
+{
     // Prepare an FD from the redirection body
     let (fd_spec, location, exit_status) = match &redir.body {
         RedirBody::Normal { operator, operand } => {
@@ -574,8 +603,7 @@ where
         let _: Result<(), Errno> = env.system.close(target_fd);
     }
 
-    let original = target_fd;
-    Ok((SavedFd { original, save }, exit_status))
+    Ok(exit_status)
 }
 
 /// `Env` wrapper for performing redirections.
